@@ -40,7 +40,8 @@ def _pd(d):
 # ---------------------------------------------------------------- (a) apply_changes vs recording double
 
 _DELTAS = st.lists(st.fixed_dictionaries({"k": st.sampled_from(["node", "edge"]),
-                                          "id": st.sampled_from(["n:a", "n:b", "e:a|r|b", "n:é", "n:c"]),
+                                          # incl. ids that are prefixes of one another (tuple order != order of the joined canonical key)
+                                          "id": st.sampled_from(["n:a", "n:b", "e:a|r|b", "n:é", "n:c", "n:1", "n:10", "n:2", "n:a-1", "n:a.b"]),
                                           "v": st.sampled_from([0.1, -0.2, 0.3, 1e-9, 0.0])}), max_size=8,
                    unique_by=lambda d: (d["k"], d["id"]))
 _RESULTS = st.sampled_from([{"edits": 3, "clamps": 1}, {"edits": 2, "clamped": 2}, {}, None, 7, "ok", [1, 2],
@@ -328,7 +329,11 @@ def check_history(h, rec=None):
                 t4o = r.get("t4_obj")
                 if t4o is None:
                     raise Violation(f"turn {i}: meta-filter was not invoked on a committed turn", h, "no-t4")
-                approved = list(t4o.approved_deltas)
+                approved = list(r.get("approved_at_filter", t4o.approved_deltas))  # as the meta-filter returned them
+                if [(_d.target_kind, _d.target_id, _d.attr, _d.delta) for _d in t4o.approved_deltas] != \
+                        [(_d.target_kind, _d.target_id, _d.attr, _d.delta) for _d in approved]:
+                    raise Violation(f"turn {i}: the approved list was edited after the meta-filter returned it: "
+                                    f"{[x.target_id for x in approved]} -> {[x.target_id for x in t4o.approved_deltas]}", h, "approved-edited")
                 want = [approved] + ([[d] for d in approved] if "raise" in t["batch"] else [])
                 got = [d for _, d in calls_log]
                 if got != want:
